@@ -36,17 +36,21 @@ def def_tla(prog):
     return tla(d)
 
 
-def model_check(d, name, prog, liveness=False, timeout=1800):
+def model_check(d, name, prog, liveness=False, timeout=1800, confluence=False):
     for f in ('MistralEngine.tla',):
         shutil.copy(os.path.join(common.SPEC, 'engine', f), d)
     mc = 'MC_Engine_' + re.sub(r'\W', '_', name)
     with open(os.path.join(d, mc + '.tla'), 'w') as fh:
-        fh.write('---- MODULE %s ----\nEXTENDS MistralEngine\nDConst == %s\nMCInit == D = DConst /\\ Init\n'
+        fh.write('---- MODULE %s ----\nEXTENDS MistralEngine\nDConst == %s\nMCInit == D = DConst /\\ Init /\\ TLCSet(1, <<>>)\n'
                  'MCSpec == MCInit /\\ [][Next]_vars\nMCFairSpec == MCSpec /\\ WF_vars(Next)\n====\n' % (mc, def_tla(prog)))
     with open(os.path.join(d, mc + '.cfg'), 'w') as fh:
         fh.write('SPECIFICATION %s\nVIEW view\nINVARIANT TypeOK\nINVARIANT NoHangM\nINVARIANT NoWaitingAtRestM\nINVARIANT JoinOnceM\n'
                  'INVARIANT JoinGateM\nPROPERTY FinishedFrozenM\n%sCHECK_DEADLOCK FALSE\n'
                  % ('MCFairSpec' if liveness else 'MCSpec', 'PROPERTY Terminates\n' if liveness else ''))
+    if confluence:
+        with open(os.path.join(d, mc + '.cfg'), 'w') as fh:
+            fh.write('SPECIFICATION MCSpec\nVIEW view\nINVARIANT Confluent\nCHECK_DEADLOCK FALSE\n')
+        return common.run_tlc(os.path.join(d, mc + '.tla'), os.path.join(d, mc + '.cfg'), timeout=timeout, metatag=mc, workers=1)
     return common.run_tlc(os.path.join(d, mc + '.tla'), os.path.join(d, mc + '.cfg'), timeout=timeout, metatag=mc)
 
 
